@@ -183,13 +183,24 @@ class ConvergedRestart(_Base):
     stubs = ('CheckConvergence.check_convergence [C03 contract; here: arbitrary flag]',)
 
     def instances(self, tier):
-        return [dict(restart_at_maxiter=r, abort=a, interpolate=i) for r in (True, False) for a in (True, False) for i in (True, False)]
+        out = [dict(restart_at_maxiter=r, abort=a, interpolate=i) for r in (True, False) for a in (True, False) for i in (True, False)]
+        # the increment criterion of the finest level (e_tol configured on the level): "converged by increment" suppresses the restart at the iteration limit
+        out += [dict(restart_at_maxiter=True, abort=a, interpolate=False, increment=True) for a in (True, False)]
+        return out
 
     def build(self, inst, mk):
+        lp = dict(restol=1e-8)
+        if inst.get('increment'):
+            lp['e_tol'] = 1.0
         c, A = adaptivity_ctrl(mk, 'AdaptivityExtrapolationWithinQ', extra=dict(e_tol=1e-5, restart_at_maxiter=inst['restart_at_maxiter'], abort_at_growing_residual=inst['abort'],
-                                                                                    interpolate_between_restarts=inst['interpolate']), M=3, level_params=dict(restol=1e-8))
+                                                                                    interpolate_between_restarts=inst['interpolate']), M=3, level_params=lp)
         S, L = _sym_level(mk, c, A)
         st = State(c=c, A=A, S=S, L=L, inst=inst)
+        if inst.get('increment'):
+            for l, Lv in enumerate(S.levels):
+                type(Lv.status).add_attr('increment')
+                Lv.params.e_tol = mk.real('level_e_tol' if l == 0 else f'coarse{l}.level_e_tol')
+                Lv.status.increment = mk.real('increment' if l == 0 else f'coarse{l}.increment')
         st.conv = mk.bool('converged')
         A.check_convergence = lambda S_: st.conv
         st.e_est = mk.real('e_est')
@@ -220,7 +231,8 @@ class ConvergedRestart(_Base):
         res = L.status.residual
         conv = bool(st.conv)
         if conv:
-            nonconv = inst['restart_at_maxiter'] and bool(res > L.params.restol)
+            by_increment = inst.get('increment') and bool(And(L.params.e_tol != 0, L.status.increment != 0, L.status.increment < L.params.e_tol))
+            nonconv = inst['restart_at_maxiter'] and bool(res > L.params.restol) and not by_increment
         else:
             nonconv = (inst['abort'] and bool(And(st.res_last < res, S.status.iter > 0))) or bool(res > A.params.residual_max_tol)
         if nonconv:
